@@ -1,7 +1,14 @@
 """Shared by C09 / C12 / C17: how an imported project file becomes a module value (jedi/inference/imports.py)."""
 from pyvc.api import *
 
-SPEC_FUNCTIONS = []
+SPEC_FUNCTIONS = ['crop']
+
+
+def crop(text):
+    """files beyond the size limit are analysed up to the limit"""
+    if len(text) > settings._cropped_file_size:
+        return text[:settings._cropped_file_size]
+    return text
 _IS = Obj('ISLoad')
 _FIO = Obj('FIOLoad')
 
@@ -76,15 +83,113 @@ load_python_module = Contract(
     notes='parse / ModuleValue / get_cached_code_lines are abstract pure functions of their arguments',
 )
 
+def _grammar_parse(V, st, self_val, args, kwargs, node):
+    """grammar.parse(code=, path=, file_io=, **kwargs): the tree parso returns - a function of the grammar, the TEXT it
+    is given, the path, the file object and the caller's cache options"""
+    import z3
+    from pyvc.values import SV, box_any, pack
+    from pyvc.types import Ref, AnySort
+    if args or set(kwargs) != {'code', 'path', 'file_io', '**'}:
+        from pyvc.values import Unsupported
+        raise Unsupported('grammar.parse called with an unexpected argument shape')
+    fio = kwargs['file_io']
+    from pyvc.values import MNONE as _N
+    fio_z = pack(fio, Opt(Obj('FIOp')))        # one representation whether the local is Optional or not
+    zs = [self_val.z, pack(kwargs['code'], STR), box_any(kwargs['path']), fio_z, box_any(kwargs['**'])]
+    f = V.uf('Grammar.parse', [z.sort() for z in zs], AnySort)
+    V.assumed_used.add('Grammar.parse')
+    return SV(ANY, f(*zs))
+
+
+def _replay_parse(inp):
+    """the real parse_and_get_code on a file whose content differs from what parso's cache holds for that path"""
+    from pyvc.replay import run_real
+    import os
+    import tempfile
+    import shutil
+    import jedi
+    from jedi import settings
+    from jedi.inference import InferenceState
+    d = tempfile.mkdtemp(prefix='loadp_', dir='/var/tmp')
+    old_cache = settings.cache_directory
+    settings.cache_directory = os.path.join(d, 'cache')
+    try:
+        p = os.path.join(d, 'mod.py')
+        with open(p, 'w', newline='') as f:
+            f.write('first = 1\r\n')
+        os.utime(p, (1000000000, 1000000000))
+        st = InferenceState(jedi.Project(d))
+        from jedi.file_io import FileIO
+        a = st.parse_and_get_code(file_io=FileIO(p), cache=True, cache_path=settings.cache_directory)[1]
+        with open(p, 'w', newline='') as f:
+            f.write('second = 2\r\nthird = 3\r\n')
+        os.utime(p, (1000000100, 1000000100))
+        out = run_real(lambda: (a, st.parse_and_get_code(file_io=FileIO(p), cache=True,
+                                                         cache_path=settings.cache_directory)[1],
+                                st.parse_and_get_code(path=p, cache=True, cache_path=settings.cache_directory)[0].get_code(),
+                                st.parse_and_get_code(code=b'given = 0\n', path=p)[1]))
+        return {}, out
+    finally:
+        settings.cache_directory = old_cache
+        shutil.rmtree(d, ignore_errors=True)
+
+
+parse_and_get_code = Contract(
+    id='LOAD.parse_and_get_code', prop=None,
+    clause='the text that is parsed (and handed back as the module\'s code) is the text GIVEN by the caller, or else the '
+           'bytes of the file as it is NOW (read through the file object), decoded leniently as UTF-8 and cropped at the '
+           'size limit - never a text remembered from an earlier parse; tree and text belong together',
+    file='jedi/inference/__init__.py', qualname='InferenceState.parse_and_get_code',
+    params={'self': Obj('ISParse'), 'code': Opt(ANY), 'path': ANY, 'use_latest_grammar': BOOL, 'file_io': Opt(Obj('FIOp')),
+            'kwargs': ANY},
+    families=['ISParse', 'Grammar', 'FIOp'], ret=Tup(ANY, STR),
+    requires=['settings._cropped_file_size >= 0'],
+    ensures=[
+        'implies(code is not None, "read-file" not in EFFECTS and result[1] == crop(decode_lenient(the(code))))',
+        'implies(code is None and file_io is not None, EFFECTS == ["read-file"] and '
+        'result[1] == crop(decode_lenient(the(file_io).read())))',
+        'implies(code is None and file_io is None, EFFECTS == ["read-file"] and '
+        'result[1] == crop(decode_lenient(FileIO(path).read())))',
+        'result[0] == parse_tree(self.latest_grammar if use_latest_grammar else self.grammar, result[1], path, '
+        'file_io if (file_io is not None or code is not None) else FileIO(path), kwargs)',
+    ],
+    witness={}, replay=_replay_parse, concrete_only=True, witness_library=[{}],
+    concrete_ensures=['result[0] == "first = 1\\r\\n"', 'result[1] == "second = 2\\r\\nthird = 3\\r\\n"',
+                      'result[2] == "second = 2\\r\\nthird = 3\\r\\n"', 'result[3] == "given = 0\\n"'],
+    notes='parso and the file object are abstract; `read-file` is the effect of file_io.read()',
+)
+
 FAMILIES = [
     Family('ISLoad', attrs={'grammar': ANY}, methods={'parse': FnSpec(
         'InferenceState.parse', params=[('file_io', _FIO), ('cache', BOOL), ('diff_cache', BOOL), ('cache_path', STR)],
         ret=ANY, pure=True, assumed=True, note='parso parse through its cache (revalidated against the file\'s mtime)')}),
     Family('FIOLoad', attrs={'path': ANY}),
+    Family('ISParse', attrs={'grammar': Obj('Grammar'), 'latest_grammar': Obj('Grammar')}),
+    Family('Grammar', methods={'parse': FnSpec('Grammar.parse', impl=_grammar_parse, assumed=True)}),
+    Family('FIOp', attrs={'path': ANY}, methods={'read': FnSpec('FileIO.read', ret=ANY, pure=True, assumed=True,
+                                                               effects=['read-file'],
+                                                               note='the bytes of the file at the time of the call')}),
 ]
 
 
+def _parse_tree(V, st, self_val, args, kwargs, node):
+    """spec form of grammar.parse: the same uninterpreted function"""
+    g, code, path, fio, kw = args
+    return _grammar_parse(V, st, g, [], {'code': code, 'path': path, 'file_io': fio, '**': kw}, node)
+
+
 def register(reg):
+    import z3
+    from pyvc.values import SV, MNS, MFn
+    from pyvc.types import sort_of
+    reg.names['FileIO'] = FnSpec('FileIO', params=[('path', ANY)], ret=Obj('FIOp'), pure=True, assumed=True)
+    _dec = FnSpec('python_bytes_to_unicode', params=[('source', ANY), ('encoding', STR), ('errors', STR)],
+                  defaults={'encoding': 'utf-8', 'errors': 'strict'}, ret=STR, pure=True, assumed=True)
+    reg.names['parso'] = MNS('parso', {'python_bytes_to_unicode': MFn('spec', 'python_bytes_to_unicode', spec=_dec)})
+    reg.names['decode_lenient'] = FnSpec('decode_lenient', impl=lambda V, st, sv, a, k, n: __import__(
+        'pyvc.calls', fromlist=['call_spec']).call_spec(V, _dec, None, [a[0], V.lit('utf-8'), V.lit('replace')], {}, st, n))
+    reg.names['parse_tree'] = FnSpec('parse_tree', impl=_parse_tree)
+    reg.names['settings'].members['_cropped_file_size'] = SV(INT, z3.Int('settings._cropped_file_size'))
     reg.names['ModuleValue'] = FnSpec(
         'ModuleValue', params=[('inference_state', _IS), ('module_node', ANY), ('file_io', _FIO), ('string_names', ANY),
                                ('code_lines', ANY), ('is_package', BOOL)], ret=ANY, pure=True, assumed=True)
@@ -92,4 +197,4 @@ def register(reg):
         'get_cached_code_lines', params=[('grammar', ANY), ('path', ANY)], ret=ANY, pure=True, assumed=True,
         note='the lines stored in parso\'s cache entry for this path (written by the parse that produced the tree)')
 
-CONTRACTS = [load_python_module]
+CONTRACTS = [load_python_module, parse_and_get_code]
